@@ -1,4 +1,5 @@
 from vcommon import Suite
+import coqreplay
 
 
 def rewrite_counter_imports(dst):
@@ -22,7 +23,7 @@ SPEC = {
     "suites": [
         Suite(name="conc", harness="vh_conc", runner="conc",
               model_deps=["theories/Model/CounterConc.vo"],
-              quick_n=400, thorough_n=12000, rewrite=rewrite_counter_imports, tags="verif,verifconc",
+              quick_n=400, thorough_n=12000, rewrite=rewrite_counter_imports, tags="verif,verifconc", coq_replay=coqreplay.conc,
               rule="each case is one scenario: 2-4 goroutines calling the real Counter.Add on one counter, plus "
                    "0-2 mapping changers (first open / rotation via the real rotate1, growth via the real "
                    "newCounter1 extension by another counter, or - scenario grow - a first page filled so that the counter's OWN first "
@@ -54,7 +55,7 @@ SPEC = {
                   "registration list has its own model, theorems and lock-step suite), critical sections under file.mu are one step, the file-level protocol "
                   "inside lookup (C04), timers. The extension of the file from inside a lock holder's own lookup IS modelled (LLook2 with s_full: "
                   "store of the new mapping, inline invalidate / refresh / close, assignment of the returned pointer; C03_grower_must_look_up_again); "
-                  "a second, nested extension inside the refresh of that cleanup is not (a file that was just extended has room). 'no fault' is refuted "
+                  "a second, nested extension inside the refresh of that cleanup is not (a file that was just extended has room), nor is an extension by a CHANGER's own lookup (first open of an existing full file by a process with pending counters). 'no fault' is refuted "
                   "(known finding use-after-unmap) and characterised exactly (C03_no_entry_through_closed_mapping); 'waits forever' is proved as obstruction freedom (C03_no_call_waits: a call running alone returns within a bounded number of its own steps from every reachable state); starvation under an adversarial scheduler that keeps making other goroutines succeed is not excluded (lock-free, not wait-free).",
     "assumptions": [
         "sequentially consistent atomics (sync/atomic); fewer than 2^30-1 goroutines inside Add at once",
